@@ -25,13 +25,19 @@ Local Existing Instance ops.
 (* what _eigendecomposition is assumed to return when it keeps p pairs of a
    symmetric psd matrix W (eigh contract + the slicing proved in C10): the kept
    pairs (s, V) together with the discarded ones (sd, Vd) form an orthogonal
-   eigen-decomposition of W; kept eigenvalues are positive, discarded ones >= 0 *)
+   eigen-decomposition of W (n = q + p orthonormal vectors); kept eigenvalues are
+   positive, discarded ones >= 0.
+   The contract is only claimed for p <= rank W: a psd matrix has exactly rank W positive
+   eigenvalues, so for larger p no such decomposition exists (with W = 0 and p = 1 the five
+   clauses are contradictory) and an unconditional contract would make every theorem that
+   assumes it vacuous.  The count rule proved in C10 keeps at most #(positive eigenvalues) pairs. *)
 Definition eig_top_of n p (W : 'M[F]_n) (s : 'cV[F]_p) (V : 'M[F]_(n, p)) :=
   exists q, exists sd : 'cV[F]_q, exists Vd : 'M[F]_(n, q),
-    [/\ W = Vd *m diagv sd *m Vd^T + V *m diagv s *m V^T,
-        (forall i, 0 <= sd i 0), (forall i, 0 < s i 0),
-        V^T *m V = 1%:M & Vd^T *m V = 0].
-Definition eig_contract := forall n p (W : 'M[F]_n), sym W -> psd W -> eig_top_of W (eigS p W) (eigV p W).
+    [/\ (q + p = n)%N, W = Vd *m diagv sd *m Vd^T + V *m diagv s *m V^T,
+        (forall i, 0 <= sd i 0), (forall i, 0 < s i 0)
+      & [/\ V^T *m V = 1%:M, Vd^T *m V = 0 & Vd^T *m Vd = 1%:M]].
+Definition eig_contract := forall n p (W : 'M[F]_n),
+  sym W -> psd W -> (p <= \rank W)%N -> eig_top_of W (eigS p W) (eigV p W).
 
 (* reduced QR *)
 Definition qr_contract := forall n m k (C : 'M[F]_(n, m)),
@@ -152,6 +158,7 @@ Hypothesis symK : sym K.
 Hypothesis psdK : psd K.
 Hypothesis j_gt0 : 0 < j.
 Hypothesis eig_ok : eig_contract.
+Hypothesis p_le : (p <= n)%N.
 
 Let a := Num.max (s ^+ 2) j.
 Let W := K + a%:M.
@@ -161,6 +168,9 @@ Proof.
 have [sW pW] := spd_jitter symK psdK (max_jitter_gt0 (s ^+ 2) j_gt0).
 by split=> //; apply: pd_psd.
 Qed.
+
+Lemma W_rank : \rank W = n.
+Proof. by apply: mxrank_unit; apply: spd_unit; apply: spd_jitter => //; apply: max_jitter_gt0. Qed.
 
 Lemma nystroem_LE :
   full_decomposition_low_rank p K rank s j = eigV p W *m diagv (map_mx Num.sqrt (eigS p W)).
@@ -174,10 +184,12 @@ Lemma nystroem_LLt :
   let L := full_decomposition_low_rank p K rank s j in
   L *m L^T = eigV p W *m diagv (eigS p W) *m (eigV p W)^T
   /\ exists q, exists sd : 'cV[F]_q, exists Vd : 'M[F]_(n, q),
-       [/\ W - L *m L^T = Vd *m diagv sd *m Vd^T, (forall i, 0 <= sd i 0) & psd (W - L *m L^T)].
+       [/\ (q + p = n)%N, W - L *m L^T = Vd *m diagv sd *m Vd^T, (forall i, 0 <= sd i 0),
+           psd (W - L *m L^T) & Vd^T *m Vd = 1%:M].
 Proof.
 move=> L; have [sW pW] := W_sym_psd.
-have [q [sd [Vd [hW sd0 s0 VV VdV]]]] := eig_ok p sW pW.
+have pr : (p <= \rank W)%N by rewrite W_rank.
+have [q [sd [Vd [qp hW sd0 s0 [VV VdV VdVd]]]]] := eig_ok sW pW pr.
 have LL : L *m L^T = eigV p W *m diagv (eigS p W) *m (eigV p W)^T.
   by rewrite /L nystroem_LE scaled_gram // => i; apply: ltW.
 have gap : W - L *m L^T = Vd *m diagv sd *m Vd^T by rewrite LL {1}hW addrK.
@@ -196,6 +208,19 @@ Qed.
 
 End Nystroem.
 
+(* a full-rank request (all n pairs kept) reproduces the un-reduced matrix: nothing is discarded *)
+Lemma nystroem_full_rank_exact n (K : 'M[F]_n) (s j : F) (rank : nat) :
+  sym K -> psd K -> 0 < j -> eig_contract ->
+  let L := full_decomposition_low_rank n K rank s j in
+  L *m L^T = K + (Num.max (s ^+ 2) j)%:M.
+Proof.
+move=> sK pK j0 eig_ok L.
+have [_ [q [sd [Vd [qn gap _ _ _]]]]] := @nystroem_LLt n n K s j rank sK pK j0 eig_ok (leqnn n).
+have q0 : q = 0%N by apply/eqP; rewrite -(eqn_add2r n) add0n qn.
+move: sd Vd gap; rewrite q0 => sd Vd gap.
+by apply/eqP; rewrite eq_sym -subr_eq0 gap (thinmx0 Vd) !mul0mx.
+Qed.
+
 (* ---- improved Nystroem (modified_low_rank) ---- *)
 Section Modified.
 Variables (n m kq p p1 : nat) (Kxu : 'M[F]_(n, m)) (Kuu : 'M[F]_m) (s j : F) (rank : nat).
@@ -204,6 +229,7 @@ Hypothesis psdK : psd Kuu.
 Hypothesis j_gt0 : 0 < j.
 Hypothesis eig_ok : eig_contract.
 Hypothesis qr_ok : qr_contract.
+Hypothesis p_le : (p <= m)%N.
 
 Let a := Num.max (s ^+ 2) j.
 Let W := Kuu + a%:M.
@@ -232,19 +258,22 @@ Qed.
 
 (* L L^T = Q [M]_p1 Q^T with M = T S^-1 T^T = R (v S^-1 v^T) R^T, and Q M Q^T = K_xu (v S^-1 v^T) K_ux *)
 Lemma modified_LLt :
+  (p1 <= \rank Mi)%N ->
   let L := modified_low_rank kq p p1 Kxu Kuu rank s j in
   [/\ L *m L^T = Q *m (eigV p1 Mi *m diagv (eigS p1 Mi) *m (eigV p1 Mi)^T) *m Q^T,
       Mi = R *m (v *m diagv (\col_i (sv i 0)^-1) *m v^T) *m R^T,
       Q *m Mi *m Q^T = Kxu *m (v *m diagv (\col_i (sv i 0)^-1) *m v^T) *m Kxu^T
     & psd (Q *m Mi *m Q^T - L *m L^T)].
 Proof.
-move=> L.
+move=> p1_le L.
 have [sW pW] : sym W /\ psd W.
   have [sW' pW'] := spd_jitter symK psdK (max_jitter_gt0 (s ^+ 2) j_gt0).
   by split=> //; apply: pd_psd.
-have [q [sd [Vd [hW sd0 s0 VV VdV]]]] := eig_ok p sW pW.
+have pr : (p <= \rank W)%N.
+  by rewrite mxrank_unit //; apply: spd_unit; apply: spd_jitter => //; apply: max_jitter_gt0.
+have [q [sd [Vd [_ hW sd0 s0 [VV VdV _]]]]] := eig_ok sW pW pr.
 have [sM pM] := Mi_sym_psd s0.
-have [q2 [sd2 [Vd2 [hM sd20 s20 VV2 VdV2]]]] := eig_ok p1 sM pM.
+have [q2 [sd2 [Vd2 [_ hM sd20 s20 [VV2 VdV2 _]]]]] := eig_ok sM pM p1_le.
 have [QR QQ] := qr_ok kq Kxu.
 have LL : L *m L^T = Q *m (eigV p1 Mi *m diagv (eigS p1 Mi) *m (eigV p1 Mi)^T) *m Q^T.
   rewrite /L modified_LE scaled_gram; last by move=> i; apply: ltW.
